@@ -2,48 +2,137 @@ package main
 
 import (
 	"go/ast"
+	"sort"
 )
 
-// genOutput: the facts the Output model relies on — prefixWriter.writeLine performs
-// its sink writes after taking the Prefixed mutex (released by a deferred Unlock), and
-// groupWriter.close performs exactly one sink write; Write methods only buffer.
+// genOutput: the facts the Output model relies on.
+//   - prefixWriter.writeLine performs ONE sink write, after taking the Prefixed mutex (released by a
+//     deferred Unlock); groupWriter.close performs exactly one sink write; Write methods never touch the sink;
+//   - Write and close of both writers take the WRITER'S OWN mutex first and release it by a deferred Unlock
+//     (several producers of one command write from separate goroutines), and the buffer is touched nowhere else;
+//   - stdout and stderr handed out by WrapWriter are one object;
+//   - runCommand wraps once per command and calls the closer once, after the command, with the command's error.
+//
+// Receiver names are read from the declarations; a sink write is a CALL whose receiver or argument is the
+// writer's `writer` field (counted per call, `loop[ … ]` around the body of a for / range statement).
 func genOutput() {
-	l := newLean("Output", "internal/output: mutex region of prefixWriter.writeLine, sink writes of groupWriter.close.")
+	l := newLean("Output", "internal/output: locks and sink writes of the prefixed / group writers; task.go: wrap / run / close order of runCommand.")
 	p := loadDir("internal/output")
-	skeleton := func(fn string, sinkExpr string, mutexExpr string) []string {
-		var out []string
+	recvOf := func(fd *ast.FuncDecl) string {
+		if fd.Recv != nil && len(fd.Recv.List) > 0 && len(fd.Recv.List[0].Names) > 0 {
+			return fd.Recv.List[0].Names[0].Name
+		}
+		return "_"
+	}
+	// number of calls in n that write to sinkExpr
+	sinkCalls := func(n ast.Node, sinkExpr string) int {
+		k := 0
+		ast.Inspect(n, func(m ast.Node) bool {
+			switch x := m.(type) {
+			case *ast.FuncLit:
+				return false
+			case *ast.CallExpr:
+				hit := false
+				if se, ok := x.Fun.(*ast.SelectorExpr); ok && src(se.X) == sinkExpr {
+					hit = true
+				}
+				for _, a := range x.Args {
+					if src(a) == sinkExpr {
+						hit = true
+					}
+				}
+				if hit {
+					k++
+				}
+			}
+			return true
+		})
+		return k
+	}
+	// skeleton of fn: lock / unlock / deferUnlock of each mutex expression (suffix after the receiver), sink writes,
+	// `stmt` for any other statement that precedes the first lock (so that "the lock comes first" is visible)
+	skeleton := func(fn string, sinkField string, lockFirst bool, mutexFields ...string) []string {
+		out := []string{}
 		fd := p.funcDecl(fn)
 		if fd == nil || fd.Body == nil {
 			return []string{"MISSING " + fn}
 		}
+		r := recvOf(fd)
+		sinkExpr := r + "." + sinkField
+		locked := !lockFirst
 		var walk func(stmts []ast.Stmt)
 		walk = func(stmts []ast.Stmt) {
 			for _, st := range stmts {
 				s := src(st)
+				isMutex := false
+				for _, mf := range mutexFields {
+					m := r + "." + mf
+					switch x := st.(type) {
+					case *ast.DeferStmt:
+						if src(x.Call) == m+".Unlock()" {
+							out = append(out, "deferUnlock")
+							isMutex = true
+						}
+					case *ast.ExprStmt:
+						if s == m+".Lock()" {
+							out = append(out, "lock")
+							locked = true
+							isMutex = true
+						} else if s == m+".Unlock()" {
+							out = append(out, "unlock")
+							isMutex = true
+						}
+					}
+				}
+				if isMutex {
+					continue
+				}
+				if !locked && (len(out) == 0 || out[len(out)-1] != "stmt-before-lock") {
+					out = append(out, "stmt-before-lock")
+				}
 				switch x := st.(type) {
 				case *ast.DeferStmt:
-					if mutexExpr != "" && contains(s, mutexExpr+".Unlock()") {
-						out = append(out, "deferUnlock")
+					for k := sinkCalls(x, sinkExpr); k > 0; k-- {
+						out = append(out, "defer:write")
 					}
 					continue
 				case *ast.IfStmt:
-					if x.Init != nil && contains(src(x.Init), sinkExpr) {
+					if x.Init != nil {
+						for k := sinkCalls(x.Init, sinkExpr); k > 0; k-- {
+							out = append(out, "write")
+						}
+					}
+					for k := sinkCalls(x.Cond, sinkExpr); k > 0; k-- {
 						out = append(out, "write")
 					}
-					// bodies of ifs: early returns etc.; look for sink writes inside too
 					walk(x.Body.List)
+					if eb, ok := x.Else.(*ast.BlockStmt); ok {
+						walk(eb.List)
+					} else if ei, ok := x.Else.(*ast.IfStmt); ok {
+						walk([]ast.Stmt{ei})
+					}
 					continue
-				case *ast.ExprStmt:
-					if mutexExpr != "" && s == mutexExpr+".Lock()" {
-						out = append(out, "lock")
-						continue
+				case *ast.ForStmt:
+					out = append(out, "loop[")
+					walk(x.Body.List)
+					out = append(out, "]")
+					if out[len(out)-2] == "loop[" {
+						out = out[:len(out)-2]
 					}
-					if mutexExpr != "" && s == mutexExpr+".Unlock()" {
-						out = append(out, "unlock")
-						continue
+					continue
+				case *ast.RangeStmt:
+					out = append(out, "loop[")
+					walk(x.Body.List)
+					out = append(out, "]")
+					if out[len(out)-2] == "loop[" {
+						out = out[:len(out)-2]
 					}
+					continue
+				case *ast.BlockStmt:
+					walk(x.List)
+					continue
 				}
-				if contains(s, sinkExpr) {
+				for k := sinkCalls(st, sinkExpr); k > 0; k-- {
 					out = append(out, "write")
 				}
 			}
@@ -51,22 +140,88 @@ func genOutput() {
 		walk(fd.Body.List)
 		return out
 	}
-	l.strList("writeLineSkeleton", skeleton("prefixWriter.writeLine", "pw.writer", "pw.prefixed.mutex"))
-	l.strList("groupCloseSkeleton", skeleton("groupWriter.close", "gw.writer", ""))
-	l.strList("groupWriteSkeleton", skeleton("groupWriter.Write", "gw.writer", ""))
-	l.strList("prefixWriteSkeleton", skeleton("prefixWriter.Write", "pw.writer", ""))
+	l.strList("writeLineSkeleton", skeleton("prefixWriter.writeLine", "writer", false, "prefixed.mutex"))
+	l.strList("groupCloseSkeleton", skeleton("groupWriter.close", "writer", true, "mutex"))
+	l.strList("groupWriteSkeleton", skeleton("groupWriter.Write", "writer", true, "mutex"))
+	l.strList("prefixWriteSkeleton", skeleton("prefixWriter.Write", "writer", true, "mutex"))
+	l.strList("prefixCloseSkeleton", skeleton("prefixWriter.close", "writer", true, "mutex"))
+	// the per-writer mutex is a field of the writer object itself
+	var mfields []string
+	for _, ty := range []string{"groupWriter", "prefixWriter"} {
+		for _, fn := range p.sortedFiles() {
+			ast.Inspect(p.files[fn], func(n ast.Node) bool {
+				ts, ok := n.(*ast.TypeSpec)
+				if !ok || ts.Name.Name != ty {
+					return true
+				}
+				if st, ok := ts.Type.(*ast.StructType); ok {
+					for _, f := range st.Fields.List {
+						for _, nm := range f.Names {
+							if nm.Name == "mutex" {
+								mfields = append(mfields, ty+".mutex:"+src(f.Type))
+							}
+						}
+					}
+				}
+				return false
+			})
+		}
+	}
+	l.strList("writerMutexFields", mfields)
+	// who touches the buffers, and who calls the helpers that do
+	var buffUsers, wolCallers, wlCallers []string
+	for _, fd := range p.allFuncs() {
+		if fd.Body == nil {
+			continue
+		}
+		r := recvOf(fd)
+		usesBuff, callsWOL, callsWL := false, false, false
+		ast.Inspect(fd.Body, func(n ast.Node) bool {
+			switch x := n.(type) {
+			case *ast.SelectorExpr:
+				if x.Sel.Name == "buff" && src(x.X) == r {
+					usesBuff = true
+				}
+			case *ast.CallExpr:
+				if se, ok := x.Fun.(*ast.SelectorExpr); ok && src(se.X) == r {
+					if se.Sel.Name == "writeOutputLines" {
+						callsWOL = true
+					}
+					if se.Sel.Name == "writeLine" {
+						callsWL = true
+					}
+				}
+			}
+			return true
+		})
+		if usesBuff {
+			buffUsers = append(buffUsers, funcName(fd))
+		}
+		if callsWOL {
+			wolCallers = append(wolCallers, funcName(fd))
+		}
+		if callsWL {
+			wlCallers = append(wlCallers, funcName(fd))
+		}
+	}
+	sort.Strings(buffUsers)
+	sort.Strings(wolCallers)
+	sort.Strings(wlCallers)
+	l.strList("buffUsers", buffUsers)
+	l.strList("writeOutputLinesCallers", wolCallers)
+	l.strList("writeLineCallers", wlCallers)
 	// how Write / close reach writeOutputLines
 	calls := func(fn string) []string {
-		var out []string
+		out := []string{}
 		fd := p.funcDecl(fn)
 		if fd == nil {
 			return out
 		}
+		r := recvOf(fd)
 		ast.Inspect(fd, func(n ast.Node) bool {
 			if ce, ok := n.(*ast.CallExpr); ok {
-				s := src(ce)
-				if contains(s, "writeOutputLines(") && len(s) < 40 {
-					out = append(out, s)
+				if se, ok := ce.Fun.(*ast.SelectorExpr); ok && se.Sel.Name == "writeOutputLines" && src(se.X) == r {
+					out = append(out, "writeOutputLines("+srcList(ce.Args)+")")
 				}
 			}
 			return true
@@ -101,5 +256,107 @@ func genOutput() {
 	}
 	l.str("prefixedWrapWriters", sameWriter("Prefixed.WrapWriter"))
 	l.str("groupWrapWriters", sameWriter("Group.WrapWriter"))
+
+	// runCommand: in statement order, the calls that wrap the streams, run the command and close the wrapper.
+	// A call inside a defer, a loop or the BODY of a conditional is marked; the argument of the closer is printed.
+	tp := loadDir(".")
+	var rc []string
+	if fd := tp.funcDecl("Executor.runCommand"); fd == nil || fd.Body == nil {
+		rc = []string{"MISSING Executor.runCommand"}
+	} else {
+		closerName, errName := "", ""
+		var visit func(n ast.Node, ctx string)
+		classify := func(ce *ast.CallExpr, ctx string) {
+			switch f := ce.Fun.(type) {
+			case *ast.SelectorExpr:
+				if f.Sel.Name == "WrapWriter" {
+					rc = append(rc, ctx+"wrap")
+				}
+				if f.Sel.Name == "RunCommand" && src(f.X) == "execext" {
+					rc = append(rc, ctx+"run")
+				}
+			case *ast.Ident:
+				if closerName != "" && f.Name == closerName {
+					arg := srcList(ce.Args)
+					if arg == errName {
+						arg = "runErr"
+					}
+					rc = append(rc, ctx+"close("+arg+")")
+				}
+			}
+		}
+		visit = func(n ast.Node, ctx string) {
+			switch x := n.(type) {
+			case nil:
+				return
+			case *ast.AssignStmt:
+				// remember the names bound by `…, closer := ….WrapWriter(…)` and `err = execext.RunCommand(…)`
+				if len(x.Rhs) == 1 {
+					if ce, ok := x.Rhs[0].(*ast.CallExpr); ok {
+						if se, ok := ce.Fun.(*ast.SelectorExpr); ok {
+							if se.Sel.Name == "WrapWriter" && len(x.Lhs) == 3 {
+								closerName = src(x.Lhs[2])
+							}
+							if se.Sel.Name == "RunCommand" && len(x.Lhs) == 1 {
+								errName = src(x.Lhs[0])
+							}
+						}
+					}
+				}
+			}
+			switch x := n.(type) {
+			case *ast.DeferStmt:
+				visit(x.Call, ctx+"defer:")
+				return
+			case *ast.ForStmt:
+				visit(x.Body, ctx+"loop:")
+				return
+			case *ast.RangeStmt:
+				visit(x.Body, ctx+"loop:")
+				return
+			case *ast.IfStmt:
+				visit(x.Init, ctx)
+				visit(x.Cond, ctx)
+				visit(x.Body, ctx+"if:")
+				visit(x.Else, ctx+"if:")
+				return
+			case *ast.FuncLit:
+				visit(x.Body, ctx+"func:")
+				return
+			case *ast.CallExpr:
+				for _, a := range x.Args {
+					visit(a, ctx)
+				}
+				visit(x.Fun, ctx)
+				classify(x, ctx)
+				return
+			case *ast.BlockStmt:
+				for _, st := range x.List {
+					visit(st, ctx)
+				}
+				return
+			case *ast.CaseClause:
+				for _, st := range x.Body {
+					visit(st, ctx)
+				}
+				return
+			case *ast.SwitchStmt:
+				visit(x.Body, ctx)
+				return
+			}
+			// generic: visit children one level down
+			ast.Inspect(n, func(m ast.Node) bool {
+				if m == n {
+					return true
+				}
+				if m != nil {
+					visit(m, ctx)
+				}
+				return false
+			})
+		}
+		visit(fd.Body, "")
+	}
+	l.strList("runCommandSkeleton", rc)
 	l.write()
 }
